@@ -408,7 +408,229 @@ func c17(c *an.Check) {
 		}
 	}
 	c.Require(okDist, "PROVENANCE", "envelope.BuildEnvelope distributes the generated shares", build, "", 1, "grants are filled from the Share(n) result", "the grants are not filled from the generated share list")
+	buildDistribution(c, build, share[0])
 	c.Note("not decided: that the validation loop's model (grant order, min(count,budget)) equals the distribution loop for every configuration — structure only")
+}
+
+// idxLoad: v is a load of base[index] (through &base[index]); returns base and index.
+func idxLoad(v ssa.Value) (base, index ssa.Value, ok bool) {
+	u, isLoad := v.(*ssa.UnOp)
+	if !isLoad || u.Op != token.MUL {
+		return nil, nil, false
+	}
+	ia, isIA := u.X.(*ssa.IndexAddr)
+	if !isIA {
+		return nil, nil, false
+	}
+	return ia.X, ia.Index, true
+}
+
+// buildDistribution decides the wiring of BuildEnvelope's distribution loop: every handed share is (ID, Value) of ONE
+// generated share, the share cursor advances by one per handed share, each grant body is encrypted to exactly the
+// keypairs its configuration names, under the context of its own grant index, and is stored with those indexes at that
+// grant index; the envelope records the configured threshold and the keypairs in their given order.
+func buildDistribution(c *an.Check, build *ssa.Function, shares *ssa.Call) {
+	p := c.P
+	req := func(ok bool, construct, expect, why string) {
+		c.Require(ok, "PROVENANCE", construct, build, "", 1, expect, why)
+	}
+	fieldStores := func(typ string) map[string]ssa.Value {
+		out := map[string]ssa.Value{}
+		for _, b := range build.Blocks {
+			for _, ins := range b.Instrs {
+				st, ok := ins.(*ssa.Store)
+				if !ok {
+					continue
+				}
+				fa, ok := st.Addr.(*ssa.FieldAddr)
+				if !ok {
+					continue
+				}
+				if al, isAl := fa.X.(*ssa.Alloc); isAl && isNamedPtr(al.Type(), typ) {
+					if f := an.FieldOfAddr(fa); f != nil {
+						out[f.Name()] = st.Val
+					}
+				}
+			}
+		}
+		return out
+	}
+	marshalOf := func(v ssa.Value, field string) (idx ssa.Value, ok bool) {
+		e, isE := v.(*ssa.Extract)
+		if !isE || e.Index != 0 {
+			return nil, false
+		}
+		call, isCall := e.Tuple.(*ssa.Call)
+		if !isCall || !call.Call.IsInvoke() || call.Call.Method.Name() != "MarshalBinary" {
+			return nil, false
+		}
+		u, isLoad := call.Call.Value.(*ssa.UnOp)
+		if !isLoad {
+			return nil, false
+		}
+		fa, isFA := u.X.(*ssa.FieldAddr)
+		if !isFA || an.FieldOfAddr(fa) == nil || an.FieldOfAddr(fa).Name() != field {
+			return nil, false
+		}
+		ia, isIA := fa.X.(*ssa.IndexAddr)
+		if !isIA || ia.X != ssa.Value(shares) {
+			return nil, false
+		}
+		return ia.Index, true
+	}
+	// (1) a handed share is (ID, Value) of one generated share
+	es := fieldStores("EnvelopeShare")
+	idI, ok1 := marshalOf(es["Id"], "ID")
+	idV, ok2 := marshalOf(es["Value"], "Value")
+	req(ok1 && ok2 && idI == idV, "envelope.BuildEnvelope hands out (ID, Value) of one generated share", "EnvelopeShare{Id: shares[k].ID, Value: shares[k].Value} with the same k", "the id and the value placed in a grant do not come from the same generated share")
+	// (2) the cursor k advances by exactly one in the block that appends the share
+	adv := false
+	if ph, isPhi := idI.(*ssa.Phi); isPhi && ok1 {
+		for _, e := range ph.Edges {
+			if bo, isBO := e.(*ssa.BinOp); isBO && bo.Op == token.ADD && bo.X == ssa.Value(ph) && an.IsIntConst(bo.Y, 1) {
+				// in the same block as the store of the share's Id
+				for _, ins := range bo.Block().Instrs {
+					if st, isSt := ins.(*ssa.Store); isSt && st.Val == es["Id"] {
+						adv = true
+					}
+				}
+			}
+		}
+	}
+	req(adv, "envelope.BuildEnvelope advances the share cursor by one per handed share", "k = k+1 in the block that appends shares[k]", "the share cursor is not advanced with every handed share: grants would receive the same share twice (or skip shares)")
+	// (3) encryption wiring
+	encs := an.Calls(build, an.R("peer", "", "EncryptToPubKey"))
+	okE, whyE := len(encs) == 1, "expected exactly one EncryptToPubKey call"
+	var gi, kpIdxs, rangeIdx, inner ssa.Value
+	if okE {
+		e := encs[0]
+		// recipient = keypairs[ kpIndexes[r] ]
+		base, idx, ok := idxLoad(e.Call.Args[0])
+		if !ok || !an.IsParam(base, 3) {
+			okE, whyE = false, "the recipient key is not an element of the keypairs argument"
+		} else if b2, r, ok := idxLoad(an.ConvOf(idx)); !ok || an.ResultCallTo(b2, cGCGetKPIndexes) == nil {
+			okE, whyE = false, "the recipient index is not an element of the grant configuration's keypair indexes"
+		} else {
+			kpIdxs, rangeIdx = b2, r
+		}
+		// context = buildGrantEncContext(envelopeID, context, gi)
+		if cc := an.ResultCallTo(e.Call.Args[1], an.R("envelope", "", "buildGrantEncContext")); cc == nil || !an.IsParam(cc.Call.Args[1], 1) {
+			okE, whyE = false, "the grant is not encrypted under buildGrantEncContext(envelope id, caller context, grant index)"
+		} else {
+			gi = cc.Call.Args[2]
+		}
+		// plaintext = inner.MarshalVT()
+		if ex, isE := e.Call.Args[2].(*ssa.Extract); isE && ex.Index == 0 {
+			if mc, isC := ex.Tuple.(*ssa.Call); isC && an.CallObj(mc.Common()) != nil && an.CallObj(mc.Common()).Name() == "MarshalVT" {
+				inner = mc.Call.Args[0]
+			}
+		}
+		if inner == nil {
+			okE, whyE = false, "the encrypted plaintext is not the marshalled grant body"
+		}
+	}
+	if okE {
+		// the grant body encrypted is the one that received the shares
+		recv := false
+		for _, b := range build.Blocks {
+			for _, ins := range b.Instrs {
+				if st, isSt := ins.(*ssa.Store); isSt {
+					if fa, isFA := st.Addr.(*ssa.FieldAddr); isFA && fa.X == inner && an.FieldOfAddr(fa) != nil && an.FieldOfAddr(fa).Name() == "Shares" {
+						if p.DependsOn(st.Val, func(v ssa.Value) bool {
+							al, isAl := v.(*ssa.Alloc)
+							return isAl && isNamedPtr(al.Type(), "EnvelopeShare")
+						}) {
+							recv = true
+						}
+					}
+				}
+			}
+		}
+		if !recv {
+			okE, whyE = false, "the grant body that is encrypted is not the one the shares were appended to"
+		}
+		// kpIndexes belong to the grant configuration at index gi
+		kc := an.ResultCallTo(kpIdxs, cGCGetKPIndexes)
+		if b, i, ok := idxLoad(kc.Call.Args[0]); !ok || i != gi || an.ResultCallTo(b, an.R("envelope", "EnvelopeConfig", "GetGrantConfigs")) == nil {
+			okE, whyE = false, "the keypair indexes / the context index do not belong to the same grant configuration"
+		}
+	}
+	req(okE, "envelope.BuildEnvelope encrypts each grant body to its configured keypairs under its own grant context", "EncryptToPubKey(keypairs[cfg[gi].KeypairIndexes[r]], buildGrantEncContext(id, context, gi), inner.MarshalVT())", whyE)
+	// (4) storage wiring: ciphertexts[r] = ct; EnvelopeGrant{KeypairIndexes: kpIndexes, Ciphertexts: ciphertexts}; envGrants[gi] = grant
+	okS, whyS := okE, "encryption wiring unresolved"
+	if okE {
+		var cts ssa.Value
+		for _, b := range build.Blocks {
+			for _, ins := range b.Instrs {
+				st, isSt := ins.(*ssa.Store)
+				if !isSt {
+					continue
+				}
+				if ex, isE := st.Val.(*ssa.Extract); isE && ex.Index == 0 && ex.Tuple == ssa.Value(encs[0]) {
+					if ia, isIA := st.Addr.(*ssa.IndexAddr); isIA && ia.Index == rangeIdx {
+						cts = ia.X
+					} else {
+						okS, whyS = false, "a grant ciphertext is not stored at the position of the keypair index it was encrypted for"
+					}
+				}
+			}
+		}
+		eg := fieldStores("EnvelopeGrant")
+		if cts == nil || eg["Ciphertexts"] != cts || eg["KeypairIndexes"] != kpIdxs {
+			okS, whyS = false, "the grant does not carry (its keypair indexes, the ciphertexts made for them) as parallel lists"
+		}
+		placed := false
+		for _, b := range build.Blocks {
+			for _, ins := range b.Instrs {
+				if st, isSt := ins.(*ssa.Store); isSt {
+					if al, isAl := st.Val.(*ssa.Alloc); isAl && isNamedPtr(al.Type(), "EnvelopeGrant") {
+						if ia, isIA := st.Addr.(*ssa.IndexAddr); isIA && ia.Index == gi {
+							placed = true
+						}
+					}
+				}
+			}
+		}
+		if okS && !placed {
+			okS, whyS = false, "the grant is not stored at its own grant index (the unlock side derives the decryption context from that index)"
+		}
+	}
+	req(okS, "envelope.BuildEnvelope stores each grant at its index with parallel (keypair index, ciphertext) lists", "ciphertexts[r] = ct(r); grants[gi] = {KeypairIndexes, Ciphertexts}", whyS)
+	// (5) envelope record: configured threshold, keypairs in order
+	ev := fieldStores("Envelope")
+	okT := ev["Threshold"] != nil && an.ResultCallTo(an.ConvOf(ev["Threshold"]), cConfGetThresh) != nil
+	okK := false
+	for _, b := range build.Blocks {
+		for _, ins := range b.Instrs {
+			st, isSt := ins.(*ssa.Store)
+			if !isSt {
+				continue
+			}
+			al, isAl := st.Val.(*ssa.Alloc)
+			if !isAl || !isNamedPtr(al.Type(), "EnvelopeKeypair") {
+				continue
+			}
+			ia, isIA := st.Addr.(*ssa.IndexAddr)
+			if !isIA || ia.X != ev["Keypairs"] {
+				continue
+			}
+			// PubKey = MarshalPubKeyPem(keypairs[same index])
+			for _, r := range *al.Referrers() {
+				if fa, isFA := r.(*ssa.FieldAddr); isFA {
+					for _, rr := range *fa.Referrers() {
+						if s2, isS := rr.(*ssa.Store); isS {
+							if mc := an.ResultCallTo(s2.Val, an.R("keypem", "", "MarshalPubKeyPem")); mc != nil {
+								if base, idx, ok := idxLoad(mc.Call.Args[0]); ok && an.IsParam(base, 3) && idx == ia.Index {
+									okK = true
+								}
+							}
+						}
+					}
+				}
+			}
+		}
+	}
+	req(okT && okK, "envelope.BuildEnvelope records the configured threshold and the keypairs in their given order", "Envelope{Threshold: config.GetThreshold(), Keypairs[i] = PEM(keypairs[i])}", "the envelope's threshold is not the configured one, or keypair i of the envelope is not keypairs[i] (grant indexes would point at the wrong recipients)")
 }
 
 func init() {
